@@ -141,6 +141,26 @@ func candidates(rs *gj5s.RuleSpec) []cand {
 			}
 			out = append(out, cand{name: fmt.Sprint(v), set: setScalar(rs.Kind, v), ok: intOK(rs, v), zero: v == 0})
 		}
+	case "string-format":
+		type sv struct {
+			s     string
+			valid bool
+		}
+		var vals []sv
+		switch rs.StrFormat {
+		case "email":
+			vals = []sv{{"a@b.co", true}, {"someone@example.com", true}, {"abcdefg@b.co", true}, {"not-an-email", false}, {"a@", false}, {"", false}}
+		case "uri":
+			vals = []sv{{"x://a", true}, {"https://example.com/a", true}, {"http://b.co", true}, {"no scheme", false}, {"", false}}
+		case "hostname":
+			vals = []sv{{"b.co", true}, {"example.com", true}, {"host-name.io", true}, {"not a host", false}, {"-bad.example", false}, {"", false}}
+		}
+		for _, v := range vals {
+			v := v
+			n := uint64(utf8.RuneCountInString(v.s))
+			ok := v.valid && (rs.MinLen == nil || n >= *rs.MinLen) && (rs.MaxLen == nil || n <= *rs.MaxLen)
+			out = append(out, cand{name: fmt.Sprintf("%q", v.s), set: func(m protoreflect.Message, fd protoreflect.FieldDescriptor) { m.Set(fd, protoreflect.ValueOfString(v.s)) }, ok: ok, zero: v.s == ""})
+		}
 	case "string", "key":
 		strs := []string{"", "a", "aa", "aaa", "aaaa", "b", "ab", "日", "日本語", "日本語日", "0000000000000000000001", "000000000000000000000", "00000000000000000000011", "0000000000000000-00001", "123e4567-e89b-12d3-a456-426614174000", "123e4567e89b12d3a456426614174000", "abc", "abcd", "ABC"}
 		for _, s := range strs {
@@ -309,6 +329,10 @@ func run(r *vk.Runner) {
 		if rs.Required {
 			cands = append(cands, cand{name: "absent", set: func(protoreflect.Message, protoreflect.FieldDescriptor) {}, ok: false, zero: true})
 		}
+		if rs.Optional {
+			// explicit presence: absent is always fine, a present zero value is judged by the rules
+			cands = append(cands, cand{name: "absent", set: func(protoreflect.Message, protoreflect.FieldDescriptor) {}, ok: true})
+		}
 		for _, c := range cands {
 			c := c
 			if !r.Mine() {
@@ -327,7 +351,7 @@ func run(r *vk.Runner) {
 				if md == nil {
 					panic("harness: Holder not found")
 				}
-				if c.zero && !rs.Required && c.name != "absent" {
+				if c.zero && !rs.Required && !rs.Optional && c.name != "absent" {
 					t.Class("ambiguous-zero-skipped")
 					return
 				}
@@ -377,7 +401,7 @@ func runPairs(r *vk.Runner) {
 	byFam := map[string][]*gj5s.RuleSpec{}
 	var fams []string
 	for _, rs := range gj5s.RuleSpecs() {
-		if rs.ProtoEnum {
+		if rs.ProtoEnum || rs.Optional {
 			continue
 		}
 		if _, ok := byFam[rs.Family]; !ok {
